@@ -473,6 +473,20 @@ class SRatio:
         n = self.n
         return mkint(z3.If(n >= 0, n / self.d, -((-n) / self.d)))
 
+    def quantize(self, exp, rounding=None, context=None):
+        """decimal.Decimal.quantize for a power-of-ten exponent: the nearest multiple of exp"""
+        import decimal
+        from fractions import Fraction
+
+        if rounding not in (None, decimal.ROUND_HALF_EVEN):
+            raise Unsupported("Decimal.quantize with rounding %r" % (rounding,))
+        step = Fraction(exp) if not isinstance(exp, (SRatio, SInt)) else None
+        if step is None or step <= 0:
+            raise Unsupported("Decimal.quantize to a symbolic exponent")
+        scaled = self * step.denominator / step.numerator
+        n = scaled.round_half_even()
+        return SRatio.of(n) * step.numerator / step.denominator
+
     def round_half_even(self):
         """nearest integer, ties to even (the rule of datetime/timedelta constructors)"""
         if self.d == 1:
@@ -961,6 +975,13 @@ def sym_int(x=0, *a):
     if isinstance(x, SStr):
         return sstr_to_int(x, *a)
     return int(x, *a)
+
+
+def sym_float(v=0.0):
+    """stands for the builtin ``float`` rebound in a module under test"""
+    if isinstance(v, (SRatio, SInt)) or type(v).__name__ == "SFloat":
+        return v
+    return float(v)
 
 
 def _sym_timedelta(*a, **kw):
